@@ -140,10 +140,33 @@ static void do_line(vf_case *c) {
 	rpt_clear(&P); rpt2_clear(&R); rpt2_clear(&Q); rpt2_clear(&D); rpt2_clear(&S); relt_clear(&A); relt_clear(&B);
 }
 
+
+/* fexp: cid, j: the final exponentiation on its own. Implementations raise to a fixed multiple c (coprime to r) of (p^12 - 1) / r, so the value is
+ * judged as a homomorphism onto the order-r subgroup: pp_exp_k12(f)^r = 1, trivial exactly when f^((p^12 - 1) / r) is, pp_exp_k12(f g) =
+ * pp_exp_k12(f) pp_exp_k12(g) with the product taken in the reference tower, and the separate-result call agrees with the in-place one. */
+static void fexp_elem(relt *F, long j) { mpz_t v; mpz_init(v); mpz_set_str(v, "b6a4c3e1f09d8775a3c2e1f0d9b8a76655443322110ffeeddccbbaa998877665", 16); mpz_add_ui(v, v, (unsigned long)j * 7919UL);
+	for (int i = 0; i < 12; i++) { mpz_mul_ui(v, v, 0x9E3779B1UL + (unsigned long)i); mpz_add_ui(v, v, (unsigned long)(j + i)); mpz_mod(F->c[i], v, RX_P); if (j < 12 && i != j && j % 2) mpz_set_ui(F->c[i], 0); } /* odd small j: a single non-zero coefficient */
+	mpz_clear(v); }
+static void do_fexp(vf_case *c) {
+	long j = mpz_get_si(c->v[1]); int th; relt F[3], R[3], E, G; for (int i = 0; i < 3; i++) { relt_init(&F[i]); relt_init(&R[i]); } relt_init(&E); relt_init(&G); mpz_t e; mpz_init(e);
+	fexp_elem(&F[0], j); fexp_elem(&F[1], j + 1); relt_mul(&T12, &F[2], &F[0], &F[1]);
+	if (relt_is_zero(&T12, &F[0]) || relt_is_zero(&T12, &F[1])) goto out;
+	mpz_pow_ui(e, RX_P, 12); mpz_sub_ui(e, e, 1); if (!mpz_divisible_p(e, RN)) { vf_fail(NULL, "r does not divide p^12 - 1"); goto out; } mpz_divexact(e, e, RN);
+	fp12_t f, r; fp12_new(f); fp12_new(r);
+	for (int i = 0; i < 3; i++) { gt_put(f, &F[i]); memset(r, 0x5A, sizeof(fp12_t)); VF_TRY(th, pp_exp_k12(r, f)); transitions++; if (th) { vf_fail(NULL, "pp_exp_k12 raised %d", th); goto out; }
+		if (!gt_get_canon(&R[i], r)) { vf_fail(NULL, "pp_exp_k12: non-canonical coefficient"); goto out; } gt_get(&G, f); if (!relt_eq(&T12, &G, &F[i])) vf_fail(NULL, "pp_exp_k12 modified its input");
+		gt_put(f, &F[i]); VF_TRY(th, pp_exp_k12(f, f)); transitions++; if (th) vf_fail(NULL, "pp_exp_k12 (in place) raised %d", th); else expect_gt("pp_exp_k12: in-place result vs separate result", f, &R[i]);
+		relt_pow(&T12, &G, &R[i], RN); if (!gt_ref_is_one(&G)) vf_fail(NULL, "pp_exp_k12: the result does not have order dividing r");
+		relt_pow(&T12, &E, &F[i], e); if (gt_ref_is_one(&E) != gt_ref_is_one(&R[i])) vf_fail(NULL, "pp_exp_k12: trivial / non-trivial verdict differs from f^((p^12 - 1) / r)"); }
+	relt_mul(&T12, &G, &R[0], &R[1]); transitions++; if (!relt_eq(&T12, &G, &R[2])) vf_fail(NULL, "pp_exp_k12(f g) != pp_exp_k12(f) pp_exp_k12(g)");
+out:
+	for (int i = 0; i < 3; i++) { relt_clear(&F[i]); relt_clear(&R[i]); } relt_clear(&E); relt_clear(&G); mpz_clear(e);
+}
+
 static void run_case(vf_case *c) {
 	if (!select_pc(mpz_get_si(c->v[0]))) { vf_fail(NULL, "parameter set %ld could not be installed", mpz_get_si(c->v[0])); return; }
 	vf_nontrivial();
-	if (!strcmp(c->op, "base")) do_base(c); else if (!strcmp(c->op, "pair")) do_pair(c); else if (!strcmp(c->op, "sim")) do_sim(c); else if (!strcmp(c->op, "line")) do_line(c); else vf_fail(NULL, "unknown op");
+	if (!strcmp(c->op, "base")) do_base(c); else if (!strcmp(c->op, "pair")) do_pair(c); else if (!strcmp(c->op, "sim")) do_sim(c); else if (!strcmp(c->op, "line")) do_line(c); else if (!strcmp(c->op, "fexp")) do_fexp(c); else vf_fail(NULL, "unknown op");
 }
 
 static vf_case K;
@@ -188,6 +211,7 @@ static void enumerate(void) {
 				vf_stat_add("states", 1); K.op = "sim"; K.n = 4; mpz_set_si(K.v[1], mi); mpz_set_si(K.v[2], m); mpz_set_si(K.v[3], (idb << 8) | (long)((sub * 5 + v * 11 + m) & 0xff)); vf_run(&K); } }
 		/* line functions: (a, b, c) over small multiples */
 		for (int bi = 0; bi < 2; bi++) for (long a = 1; a <= 3; a++) for (long b = 1; b <= (vf_tier ? 12 : 6); b++) for (long c2 = -3; c2 <= 6; c2++) if (vf_mine()) { vf_stat_add("states", 1); K.op = "line"; K.n = 5; mpz_set_si(K.v[1], bi); mpz_set_si(K.v[2], a); mpz_set_si(K.v[3], b); mpz_set_si(K.v[4], c2); vf_run(&K); }
+		for (long j = 0; j < (vf_tier ? 64 : 24); j++) if (vf_mine()) { vf_stat_add("states", 1); K.op = "fexp"; K.n = 2; mpz_set_si(K.v[1], j); vf_run(&K); }
 		vf_dom_clear(&S);
 		vf_bound_done(bn);
 	}
